@@ -58,6 +58,8 @@ func valStr(kind string, v int) string {
 			return "" // an empty class name means "clear the class"
 		}
 		return fmt.Sprintf("cls%d", v)
+	case "dev":
+		return devDescNRI(mkDevice("", v))
 	case "ann", "env", "unified":
 		return fmt.Sprintf("v%d", v)
 	case "mount":
@@ -354,7 +356,7 @@ func extractContainer(ctr *api.Container) *CState {
 			if _, dup := c.Devs[d.Path]; dup {
 				c.Anomal = append(c.Anomal, fmt.Sprintf("device path %q listed more than once", d.Path))
 			}
-			c.Devs[d.Path] = strconv.FormatInt(d.Major, 10)
+			c.Devs[d.Path] = devDescNRI(d)
 		}
 		extractResources(l.Resources, c)
 		c.CgPath = l.CgroupsPath
@@ -406,7 +408,7 @@ func extractAdjustSets(a *api.ContainerAdjustment) (map[string]string, []string)
 	if l := a.Linux; l != nil {
 		for _, d := range l.Devices {
 			if _, marked := d.IsMarkedForRemoval(); !marked {
-				put("dev|"+d.Path, strconv.FormatInt(d.Major, 10))
+				put("dev|"+d.Path, devDescNRI(d))
 			}
 		}
 		c := newCState()
